@@ -89,6 +89,26 @@ def r19_1(run, model):
     run.ob("R19.1", "is_go_keyword|lookup independent of table order", ok, site(MANGLE, f.node["sp"]),
            "pattern match / linear membership" if not bis else f"binary_search over a table that is {'sorted' if ok else 'NOT sorted'}",
            witness="`fn interface(x)` is emitted as `func interface(...)`: the bisection misses a keyword that is out of order")
+    # a shortcut in front of the table: every test that answers `false` early is evaluated on each of the 25 keywords
+    from lib import streval
+    ps = [p_["pat"].get("name") for p_ in f.params() if not p_["self"]]
+    for iff in S.find(f.body, "If"):
+        tails = [x for x in S.walk(iff["then"]) if x["k"] == "Return" and x.get("expr") is not None and x["expr"]["k"] == "Lit" and str(x["expr"].get("value")) == "false"]
+        st_ = iff["then"]["stmts"]
+        if st_ and st_[-1]["k"] == "ExprStmt" and not st_[-1].get("semi") and st_[-1]["expr"]["k"] == "Lit" and str(st_[-1]["expr"].get("value")) == "false":
+            tails.append(st_[-1]["expr"])
+        if not tails or len(ps) != 1:
+            continue
+        lost = []
+        for kw in sorted(GO_KEYWORDS):
+            try:
+                if streval.ev(iff["cond"], {ps[0]: kw}) is True:
+                    lost.append(kw)
+            except streval.Unknown as e_:
+                raise AnalysisIncomplete(f"is_go_keyword: an early `return false` is guarded by a test this rule cannot evaluate ({e_})")
+        run.ob("R19.1", "is_go_keyword|no shortcut answers `false` for a keyword", not lost, site(MANGLE, iff["sp"]),
+               f"`if {S.norm_ws(run.facts.text(MANGLE, iff['cond']['sp']))[:80]}` returns false for: {lost or 'no keyword'}",
+               witness=f"a user function or variable named `{lost[0] if lost else '?'}` is emitted verbatim: the Go file does not parse")
     g = model.fn("go_ident", MANGLE)
     t = S.norm_ws(run.facts.text(MANGLE, g.body["sp"]))
     ok = "is_valid_go_ident(name)&&!is_go_keyword(name)" in t
